@@ -2,12 +2,369 @@
 C01 (hand-written code) — termination, iteration bounds, in-range indices / slices and absence of arithmetic
 traps for the models of Model/HandBitmap.lean ⇄ read-fonts/src/tables/bitmap.rs / cblc.rs / ebdt.rs / sbix.rs (BitmapSize::location, index subtable formats 1-5, bitmap_data, glyph_data).
 Tied to the real functions by harness group `bitmap.model` (`hb.*` driver commands).
+
+Standing hypotheses: the data is a list of bytes (`Bytes d`: every element `< 256`) that is shorter than
+`usize::MAX` (`d.length < MAXU`; a slice is at most `isize::MAX` bytes).  Nothing is assumed about the CONTENT:
+counts, offsets, glyph ranges, formats, array order are arbitrary.
 -/
 import FontVerif.Model.HandBitmap
-import FontVerif.Lemmas.ReadIter
+import FontVerif.Lemmas.HandBitmap
 set_option linter.unusedVariables false
 set_option linter.unusedSimpArgs false
 namespace FontVerif.C01HandBitmap
 open FontVerif FontVerif.HandRead FontVerif.HandBitmap
+
+/-! ## the readers that size the arrays -/
+
+/-- **`BitmapSize::index_subtable_list` hands out a list inside the data**: `Ok` means
+`offset + size ≤ len`, the list data is exactly that slice, and its `n` 8-byte records fit into it. -/
+theorem indexSubtableList_inside (d : List Nat) (off size n : Nat) (ld : List Nat) (hlen : d.length < MAXU)
+    (h : indexSubtableList d off size n = .ok ld) :
+    off + size ≤ d.length ∧ ld = (d.drop off).take size ∧ ld.length = size ∧ n * 8 ≤ size ∧
+    (records ld n).length = n := by
+  obtain ⟨a, b, c, e⟩ := indexSubtableList_facts hlen h
+  exact ⟨b, a, c, e, records_length ld n⟩
+
+/-- **`IndexSubtable::read_with_args` sizes every array inside the data**: after `Ok` the header and the
+whole `sbit_offsets` / `glyph_array` (`count` elements of 4 / 2 / 4 / 2 bytes behind 8 / 8 / 12 / 24 header bytes;
+format 2: the 20 fixed bytes) end at or before the end of the subtable's data, and the counts are the ones the
+generated readers compute (`last − first + 2` saturating, `num_glyphs + 1`, `num_glyphs`). -/
+theorem readSubtable_arrays_inside (sd : List Nat) (last first : Nat) (sub : Sub) (hlen : sd.length < MAXU)
+    (h : readSubtable sd last first = .ok sub) :
+    subMinEnd sub ≤ sd.length ∧
+    (match sub with
+     | .f1 c => c = satAdd (last - first) 2
+     | .f2 => True
+     | .f3 c => c = satAdd (last - first) 2
+     | .f4 c => c = satAdd (beAt sd 8 4) 1
+     | .f5 c => c = beAt sd 20 4) :=
+  readSubtable_facts hlen h
+
+/-! ## `BitmapSize::location` -/
+
+/-- **`location` never panics**: for every byte string, every `BitmapSize` record (16-bit glyph range — the
+fields are `GlyphId16`s; the other fields are arbitrary) and every glyph id, none of the unchecked `usize`
+operations (`glyph_id − first`, `image_data_offset + offset`, `glyph_ix + 1`, `glyph_ix * image_size`,
+`end − start`) overflows and none of the two plain indexings (`array[array_ix]`, `big_metrics()[0]`) is out of
+range: the result is `Ok` or a `ReadError`. -/
+theorem location_no_trap (d : List Nat) (hb : Bytes d) (hlen : d.length < MAXU) (sz : Size) (gid : Nat) :
+    location d sz gid ≠ .trap := by
+  unfold location locationT
+  split
+  · split
+    · simp
+    · rename_i ld hl
+      obtain ⟨hld, _, hsz, _⟩ := indexSubtableList_facts hlen hl
+      have hbl : Bytes ld := by rw [hld]; exact bytes_take (bytes_drop hb _) _
+      have hll : ld.length < MAXU := by
+        rw [hld]; simp only [List.length_take, List.length_drop]; omega
+      exact locLoop_ne_trap hbl hll gid _ _ (fun r hr => by
+        obtain ⟨a, b, _⟩ := records_mem hbl hr
+        exact ⟨a, b⟩)
+  · simp
+
+/-- **`location` terminates within `number_of_index_subtables` trips, which the data length bounds**: the
+record loop makes at most `n = number_of_index_subtables` trips, and it only runs when the `n` records
+(8 bytes each) lie inside the list, i.e. `8 · trips ≤ 8 · n ≤ index_subtable_list_size ≤ len`. -/
+theorem location_trips_bounded (d : List Nat) (hlen : d.length < MAXU) (sz : Size) (gid : Nat) :
+    (locationT d sz gid).2 ≤ sz.numSubtables ∧ 8 * (locationT d sz gid).2 ≤ d.length := by
+  unfold locationT
+  split
+  · split
+    · simp
+    · rename_i ld hl
+      obtain ⟨_, h1, _, h2⟩ := indexSubtableList_facts hlen hl
+      have := locLoop_trips ld gid
+        { format := 0, dataOffset := 0, dataSize := 0, bitDepth := sz.bitDepth, metrics := none }
+        (records ld sz.numSubtables)
+      rw [records_length] at this
+      constructor
+      · exact this
+      · omega
+  · simp
+
+/-- **what `Ok(location)` means** — every value handed out comes from in-range entries:
+the glyph id is inside the size's range; the FIRST record `k < n` whose range holds it decided (all earlier
+records' ranges do not hold it); that record's offset is non-null and inside the list; its subtable read
+(`readSubtable … = Ok`, so its array lies inside the data by `readSubtable_arrays_inside`); the loop made
+`k + 1` trips; and the location satisfies `SubLocSpec`: formats 1 / 3 read entries `ix`, `ix + 1 < count` of
+`sbit_offsets` with `8 + elem·(ix + 2) ≤ len`, format 4 found an entry `i` with `i + 1 < count` whose glyph id IS
+the requested one and read the offsets of entries `i`, `i + 1` (inside the data), format 5 found an entry
+`i < count` holding the glyph id, format 2 needs the 20 fixed bytes; offset and size are the stated functions of
+those entries; `bit_depth` is the size's. -/
+theorem location_ok_spec (d : List Nat) (hlen : d.length < MAXU) (sz : Size) (gid : Nat) (loc : Loc)
+    (h : location d sz gid = .ok loc) :
+    sz.startGlyph ≤ gid ∧ gid ≤ sz.endGlyph ∧ loc.bitDepth = sz.bitDepth ∧
+    ∃ ld k first last off sd sub,
+      indexSubtableList d sz.listOffset sz.listSize sz.numSubtables = .ok ld ∧
+      k < sz.numSubtables ∧ (records ld sz.numSubtables)[k]? = some (first, last, off) ∧
+      (∀ j, j < k → ∀ r, (records ld sz.numSubtables)[j]? = some r → rangeContains r.1 r.2.1 gid = false) ∧
+      first ≤ gid ∧ gid ≤ last ∧
+      off ≠ 0 ∧ off ≤ ld.length ∧ sd = ld.drop off ∧ readSubtable sd last first = .ok sub ∧
+      subMinEnd sub ≤ sd.length ∧
+      SubLocSpec sd sub gid (gid - first)
+        { format := 0, dataOffset := 0, dataSize := 0, bitDepth := sz.bitDepth, metrics := none } loc ∧
+      (locationT d sz gid).2 = k + 1 := by
+  unfold location at h
+  unfold locationT at h ⊢
+  split at h
+  · rename_i hc
+    simp only [rangeContains, decide_eq_true_eq] at hc
+    split at h
+    · cases h
+    · rename_i ld hl
+      obtain ⟨hld, _, hsz, _⟩ := indexSubtableList_facts hlen hl
+      have hll : ld.length < MAXU := by
+        rw [hld]; simp only [List.length_take, List.length_drop]; omega
+      obtain ⟨k, first, last, off, sd, sub, hk, hbefore, hcont, hres, hloc, htr⟩ := locLoop_ok _ h
+      obtain ⟨ho0, hole, hsd, hsub⟩ := resolveSubtable_facts hres
+      have hls : sd.length < MAXU := by rw [hsd]; simp; omega
+      have hspec := subLocation_ok hsub hls hloc
+      have hklt : k < sz.numSubtables := by
+        have := (List.getElem?_eq_some_iff.1 hk).1
+        rwa [records_length] at this
+      simp only [rangeContains, decide_eq_true_eq] at hcont
+      refine ⟨hc.1, hc.2, hspec.2.1, ld, k, first, last, off, sd, sub, hl, hklt, hk, hbefore, hcont.1, hcont.2,
+        ho0, hole, hsd, hsub, (readSubtable_facts hls hsub).1, hspec, ?_⟩
+      simp only [rangeContains, hc, and_self, decide_true, if_true, hl]
+      exact htr
+  · cases h
+
+/-- **formats 1 and 3: the `sbit_offsets.get(glyph_ix)` / `.get(glyph_ix + 1)` never fail** for a glyph
+inside the record's range — `index < len` follows from the range test and the generated reader's array sizing
+(`last − first + 2` entries): the two `ok_or(OutOfBounds)?` of these arms are dead code, and so would be a
+plain `[ix]`. -/
+theorem location_offsets_index_in_range (sd : List Nat) (first last gid elem : Nat) (hl : last < 65536)
+    (hr : rangeContains first last gid = true) :
+    (arrGet sd 8 elem elem (satAdd (last - first) 2) (gid - first)).isSome = true ∧
+    (arrGet sd 8 elem elem (satAdd (last - first) 2) (gid - first + 1)).isSome = true :=
+  twoOffsets_get_some hl hr
+
+/-- whatever order the format 4 / 5 glyph array has (the search closure is then not monotone),
+`binary_search_by` answers `Ok(i)` only with an index inside the array whose element compares `Equal`:
+`array[array_ix]` cannot panic and the entry belongs to the requested glyph -/
+theorem search_result_in_range (n : Nat) (key : Nat → Nat) (gid i : Nat)
+    (h : Layout.binarySearchBy n (fun j => Layout.natCmp (key j) gid) = .ok i) : i < n ∧ key i = gid := by
+  obtain ⟨a, b⟩ := binarySearchBy_ok h
+  exact ⟨a, natCmp_eq b⟩
+
+/-! ## `bitmap_data` -/
+
+/-- **the size arithmetic of `bitmap_data` cannot overflow**: width, height (metrics bytes) and bit depth are
+`u8`s, so `width · bit_depth ≤ 65025`, `pitch · height` and `width · bit_depth · height` are at most
+`255³ = 16 581 375 < 2²⁴`. -/
+theorem bitmap_size_arithmetic_bounded (w h bd : Nat) (hw : w < 256) (hh : h < 256) (hbd : bd < 256) :
+    w * bd ≤ 65025 ∧ divCeil8 (w * bd) * h ≤ 16581375 ∧ divCeil8 (w * bd * h) ≤ 16581375 ∧ 16581375 < 2 ^ 24 := by
+  obtain ⟨a, b, c⟩ := size_products_bound hw hh hbd
+  have := divCeil8_le (w * bd * h)
+  exact ⟨a, b, by omega, by decide⟩
+
+/-- **`bitmap_data` never panics**, for every table, every location (offset and size are ANY `usize`s — the
+end is `checked_add`ed; `bit_depth` is a `u8`; the optional metrics are 8 bytes) and both `is_color` values:
+the `usize` multiplications are in range and `read_array::<M>(1)?[0]` always has its element. -/
+theorem bitmapData_no_trap (d : List Nat) (hb : Bytes d) (loc : Loc) (isColor : Bool)
+    (hbd : loc.bitDepth < 256) (hm : ∀ m, loc.metrics = some m → Bytes m) :
+    bitmapData d loc isColor ≠ .trap := by
+  unfold bitmapData
+  split
+  · simp
+  · split
+    · simp
+    · have hbi : Bytes ((d.drop loc.dataOffset).take loc.dataSize) := bytes_take (bytes_drop hb _) _
+      have hmet : ∀ {sz c m c1}, readMetrics ((d.drop loc.dataOffset).take loc.dataSize) c sz = .ok (m, c1) → Bytes m := by
+        intro sz c m c1 h
+        rw [(readMetrics_ok h).1]
+        exact bytes_take (bytes_drop hbi _) _
+      simp only []
+      split
+      · apply bind_ne_trap (readMetrics_ne_trap _ _ _)
+        intro ⟨m, c1⟩ hr
+        exact byteAligned_ne_trap _ _ _ _ (hmet hr) hbd
+      split
+      · apply bind_ne_trap (readMetrics_ne_trap _ _ _)
+        intro ⟨m, c1⟩ hr
+        exact bitAligned_ne_trap _ _ _ _ (hmet hr) hbd
+      split
+      · apply bind_ne_trap (okOr_ne_trap _ _)
+        intro m hr
+        exact bitAligned_ne_trap _ _ _ _ (hm m (okOr_eq_ok hr)) hbd
+      split
+      · apply bind_ne_trap (readMetrics_ne_trap _ _ _)
+        intro ⟨m, c1⟩ hr
+        exact byteAligned_ne_trap _ _ _ _ (hmet hr) hbd
+      split
+      · apply bind_ne_trap (readMetrics_ne_trap _ _ _)
+        intro ⟨m, c1⟩ hr
+        exact bitAligned_ne_trap _ _ _ _ (hmet hr) hbd
+      split
+      · apply bind_ne_trap (readMetrics_ne_trap _ _ _)
+        intro ⟨m, c1⟩ hr
+        apply bind_ne_trap (readR_ne_trap _ _ _)
+        intro ⟨p, c2⟩ _
+        exact composite_ne_trap _ _ _ _ _
+      split
+      · apply bind_ne_trap (readMetrics_ne_trap _ _ _)
+        intro ⟨m, c1⟩ hr
+        exact composite_ne_trap _ _ _ _ _
+      split
+      · apply bind_ne_trap (readMetrics_ne_trap _ _ _)
+        intro ⟨m, c1⟩ hr
+        exact png_ne_trap _ _ _ _ _
+      split
+      · apply bind_ne_trap (readMetrics_ne_trap _ _ _)
+        intro ⟨m, c1⟩ hr
+        exact png_ne_trap _ _ _ _ _
+      split
+      · apply bind_ne_trap (okOr_ne_trap _ _)
+        intro m hr
+        exact png_ne_trap _ _ _ _ _
+      · simp
+
+/-- **the slice `bitmap_data` hands out is inside the located image, which is inside the table**:
+`Ok` means `data_offset + data_size ≤ len` and the content (`count` bytes, or `count` 4-byte components)
+starts at or after `data_offset` and ends at or before `data_offset + data_size`. -/
+theorem bitmapData_content_inside (d : List Nat) (loc : Loc) (isColor : Bool) (b : BData)
+    (h : bitmapData d loc isColor = .ok b) :
+    loc.dataOffset + loc.dataSize ≤ d.length ∧ loc.dataOffset ≤ b.start ∧
+    b.start + b.count * b.kind.elemSize ≤ loc.dataOffset + loc.dataSize := by
+  unfold bitmapData at h
+  split at h
+  · cases h
+  · rename_i e he
+    obtain ⟨hee, _⟩ := checkedAdd_some he
+    subst hee
+    split at h
+    · cases h
+    · rename_i x hs
+      have hr : loc.dataOffset + loc.dataSize ≤ d.length := (sliceExcl_some hs).2
+      have hl : ((d.drop loc.dataOffset).take loc.dataSize).length = loc.dataSize := length_take_drop hr
+      suffices hc : ContentIn ((d.drop loc.dataOffset).take loc.dataSize) loc.dataOffset b by
+        obtain ⟨p, hp1, hp2⟩ := hc
+        rw [hl] at hp2
+        exact ⟨hr, by omega, by omega⟩
+      simp only [] at h
+      split at h
+      · obtain ⟨⟨m, c1⟩, _, h2⟩ := bind_eq_ok h
+        exact (byteAligned_ok h2).1
+      split at h
+      · obtain ⟨⟨m, c1⟩, _, h2⟩ := bind_eq_ok h
+        exact (bitAligned_ok h2).1
+      split at h
+      · obtain ⟨m, _, h2⟩ := bind_eq_ok h
+        exact (bitAligned_ok h2).1
+      split at h
+      · obtain ⟨⟨m, c1⟩, _, h2⟩ := bind_eq_ok h
+        exact (byteAligned_ok h2).1
+      split at h
+      · obtain ⟨⟨m, c1⟩, _, h2⟩ := bind_eq_ok h
+        exact (bitAligned_ok h2).1
+      split at h
+      · obtain ⟨⟨m, c1⟩, _, h2⟩ := bind_eq_ok h
+        simp only [] at h2
+        obtain ⟨⟨p, c2⟩, _, h3⟩ := bind_eq_ok h2
+        exact (composite_ok h3).1
+      split at h
+      · obtain ⟨⟨m, c1⟩, _, h2⟩ := bind_eq_ok h
+        exact (composite_ok h2).1
+      split at h
+      · obtain ⟨⟨m, c1⟩, _, h2⟩ := bind_eq_ok h
+        exact (png_ok h2).1
+      split at h
+      · obtain ⟨⟨m, c1⟩, _, h2⟩ := bind_eq_ok h
+        exact (png_ok h2).1
+      split at h
+      · obtain ⟨m, _, h2⟩ := bind_eq_ok h
+        exact (png_ok h2).1
+      · cases h
+
+/-! ## sbix -/
+
+/-- **`Strike::read` sizes the offset array inside the strike**: `num_glyphs + 1` offsets of 4 bytes behind
+the 4 header bytes -/
+theorem strikeRead_sized (sd : List Nat) (ng count : Nat) (hlen : sd.length < MAXU)
+    (h : strikeRead sd ng = .ok count) : count = satAdd ng 1 ∧ 4 + count * 4 ≤ sd.length :=
+  strikeRead_facts hlen h
+
+/-- **`Strike::glyph_data` never panics** (for any glyph id: `glyph_id + 1` is only computed after
+`offsets.get(glyph_id)` succeeded, so it is at most the array length) … -/
+theorem glyphData_no_trap (sd : List Nat) (count gid : Nat) (hc : count ≤ MAXU) :
+    glyphData sd count gid ≠ .trap := by
+  unfold glyphData
+  apply bind_ne_trap (okOr_ne_trap _ _)
+  intro start hs
+  obtain ⟨hlt, _⟩ := arrGet_some (okOr_eq_ok hs)
+  apply bind_ne_trap (usizeAdd_ne_trap (by omega))
+  intro ix1 _
+  apply bind_ne_trap (okOr_ne_trap _ _)
+  intro end_ _
+  split
+  · simp
+  · split
+    · simp
+    · split <;> simp
+
+/-- … **and the range it hands out satisfies `start < end ≤ len`** with the 8 header bytes of `GlyphData`
+inside, both offsets read from entries `gid`, `gid + 1 < count` of the offset array. -/
+theorem glyphData_range_inside (sd : List Nat) (count gid s e : Nat)
+    (h : glyphData sd count gid = .ok (some (s, e))) :
+    gid + 1 < count ∧ s = beAt sd (4 + 4 * gid) 4 ∧ e = beAt sd (4 + 4 * (gid + 1)) 4 ∧
+    s < e ∧ e ≤ sd.length ∧ s + 8 ≤ e := by
+  unfold glyphData at h
+  obtain ⟨start, hs, h2⟩ := bind_eq_ok h
+  obtain ⟨_, hs⟩ := arrGet_some (okOr_eq_ok hs)
+  obtain ⟨ix1, h1, h3⟩ := bind_eq_ok h2
+  obtain ⟨h1, _⟩ := usizeAdd_eq_ok h1
+  obtain ⟨end_, he, h4⟩ := bind_eq_ok h3
+  obtain ⟨hlt, he⟩ := arrGet_some (okOr_eq_ok he)
+  rw [h1] at hlt he
+  split at h4
+  · cases h4
+  · rename_i hne
+    split at h4
+    · cases h4
+    · rename_i x hsl
+      have hr := sliceExcl_some hsl
+      split at h4
+      · cases h4
+      · rename_i hg
+        have h8 := glyphDataRead_ok hg
+        simp only [List.length_take, List.length_drop] at h8
+        injection h4 with h4; injection h4 with h4; injection h4 with ha hb
+        subst ha; subst hb
+        exact ⟨hlt, hs, he, by omega, hr.2, by omega⟩
+
+/-! ## non-vacuity -/
+
+/-- an index subtable list with one format 1 record for glyphs 3..4 (offsets 0, 5, 9 behind image data
+offset 16): the hypotheses hold and `location(4)` is `Ok` with values from entries 1 and 2 -/
+def sampleList : List Nat :=
+  [0, 3, 0, 4, 0, 0, 0, 8,  0, 1, 0, 17, 0, 0, 0, 16,  0, 0, 0, 0, 0, 0, 0, 5, 0, 0, 0, 9]
+
+def sampleSize : Size :=
+  { listOffset := 0, listSize := 28, numSubtables := 1, startGlyph := 3, endGlyph := 4, bitDepth := 32 }
+
+example : Bytes sampleList := by unfold Bytes sampleList; decide
+example : sampleList.length < MAXU := by decide
+example : location sampleList sampleSize 4 =
+    .ok { format := 17, dataOffset := 21, dataSize := 4, bitDepth := 32, metrics := none } := by decide
+example : (locationT sampleList sampleSize 4).2 = 1 := by decide
+example : location sampleList sampleSize 5 = .err .oob := by decide
+/-- a representable trap: the same record with a `usize` that is only 5 bits wide would overflow -/
+example : usizeAdd MAXU 1 = .trap ∧ usizeSub 3 4 = .trap ∧ (index0 ([] : List Nat)) = .trap := by decide
+
+/-- a format 17 image (small metrics, 2 bytes of PNG data) at offset 4 of a 15 byte CBDT -/
+def sampleCbdt : List Nat := [0, 3, 0, 0, 1, 2, 0, 0, 3, 0, 0, 0, 2, 0xAA, 0xBB]
+
+example : bitmapData sampleCbdt { format := 17, dataOffset := 4, dataSize := 11, bitDepth := 32, metrics := none } true =
+    .ok { small := true, metrics := [1, 2, 0, 0, 3], kind := .png, start := 13, count := 2 } := by decide
+example : bitmapData sampleCbdt { format := 17, dataOffset := 4, dataSize := 11, bitDepth := 32, metrics := none } false =
+    .err .badFormat := by decide
+
+/-- a strike with one glyph (offsets 12, 21): 8 header bytes + 1 byte of data -/
+def sampleStrike : List Nat := [0, 20, 0, 72, 0, 0, 0, 12, 0, 0, 0, 21, 0, 1, 0, 2, 112, 110, 103, 32, 7]
+
+example : strikeRead sampleStrike 1 = .ok 2 := by rfl
+example : glyphData sampleStrike 2 0 = .ok (some (12, 21)) := by decide
+example : glyphData sampleStrike 2 1 = .err .oob := by decide
 
 end FontVerif.C01HandBitmap
